@@ -210,6 +210,8 @@ def run_facet(prop, facet, tier, seed_value, muted, deadline, shard=0, nshards=1
                                  "detail": v.detail, "case": case, "seed": seed_value, "shrunk": True,
                                  "note": state.get("note", "")})
         muted.add(v.signature)
+        if v.signature.startswith("nontermination"):
+            break       # every further hanging case would cost a full watchdog period
     return stats
 
 
